@@ -9,7 +9,7 @@ git apply "$patch" || { echo "patch does not apply"; exit 9; }
 trap 'git -C /repo checkout -- . ; git -C /repo clean -fdq -- OpenPinch' EXIT
 cd /verif
 for pid in "$@"; do
-  out=$(PYTHONHASHSEED=0 /venv/bin/python -m opv.check "$pid" --tier "${TIER:-quick}" 2>&1); rc=$?
+  out=$(OPV_OUT=/tmp/opv_audit_out PYTHONHASHSEED=0 /venv/bin/python -m opv.check "$pid" --tier "${TIER:-quick}" 2>&1); rc=$?
   echo "== $pid rc=$rc $(echo "$out" | grep -c '^VIOLATION') violation line(s)"
   echo "$out" | grep -E "^(bucket|  FAIL|VIOLATION|HARNESS)" | head -${LINES_MAX:-8}
 done
